@@ -44,3 +44,11 @@ pub mod xtypes;
 
 // To enable using our own derive macros to allow the name dust_dds:: to be used
 extern crate self as dust_dds;
+
+// Verification hook (inert unless built by Kani with `--cfg s2e_systems_dust_dds_verif`):
+// compiles the out-of-tree proof harnesses as part of this crate.
+#[cfg(all(kani, s2e_systems_dust_dds_verif))]
+#[allow(dead_code, unused, clippy::all)]
+mod s2e_systems_dust_dds_verif {
+    include!(concat!(env!("DUST_DDS_VERIF_HARNESS_DIR"), "/mod.rs"));
+}
